@@ -10,4 +10,48 @@ META = {
         note="Trusted: std Vec as reference semantics; the element types' own probe/canary; the harness's mirror of each call on the model. Assumes behaviour depends on the state only through (len, capacity class, dirty spare) for the exhaustive part.",
         technique="differential runtime monitor (Vec reference model) over enumerated + random executions",
     ),
+    "C02": dict(
+        text="Differential runtime monitoring of drain/splice against Vec::drain/Vec::splice: every range in every RangeBounds form incl. invalid ranges at the boundary and at usize::MAX, "
+             "every next/next_back consumption string, per-item sinks, replacement lengths 0..=K from every value-source kind, erased and typed, from every abstract state on 69 configurations, "
+             "plus random range histories; production-flags and debug builds (D15 exists only without overflow checks). Exploration, bounded by L, K and the table.",
+        design_ref="DESIGN.md 3/C02",
+        note="Trusted: Vec::drain/splice semantics as mirrored by the model (hvcore::model), element canaries. A replacement iterator that is itself a drain of another vector is consumed/dropped by the caller side as in Vec.",
+        technique="differential runtime monitor (Vec::drain/splice model) over enumerated ranges x consumption scripts",
+    ),
+    "C03": dict(
+        text="Identity-level accounting at run time: every element instance is registered by its own constructor/Clone/Drop; after every step of every family (element, range, clone, lazy, mixed random histories over three "
+             "vectors exchanging elements) the live-instance multiset must equal what is reachable through the vectors, a destructor on a non-live or malformed element is a violation, and at the end nothing may stay alive. "
+             "By-value multiset accounting for no-drop types and by-count for zero-sized types. Exploration level.",
+        design_ref="DESIGN.md 3/C03, 1.2",
+        note="Trusted: the registry (thread-local, updated only from the element types' own code); ids of 8/16-bit element types are recycled, so for those accounting is by multiset. Leaks are tolerated only where the property permits unspecified results (capacity-overflow panic of a fixed backend).",
+        technique="conservation / exactly-once monitor over Drop+Clone event log (identity registry)",
+    ),
+    "C08": dict(
+        text="clone / clone_empty / clone_empty_in on every Cloneable configuration and backend pair from every state, followed by each single operation on original and clone; monitors: per-id Clone-event log, Vec model of "
+             "both vectors (independence), distinct storage base pointers, element_typeid/layout of the result. Exploration level.",
+        design_ref="DESIGN.md 3/C08",
+        note="Trusted: the model; clone events are observed through the element type's Clone impl. clone_empty_in onto inline backends is exercised for element alignment <= 8 only (see C12 finding).",
+        technique="differential monitor + Clone-event log + storage-identity check",
+    ),
+    "C09": dict(
+        text="Lazy clones of all six cloneable source kinds x chain depth 1..3 x 0..3 consumptions of five kinds from every state: Clone/Drop event counters must not move while lazy clones are created, copied or dropped, "
+             "and each consumption must produce exactly one Clone event of the original source id with a balanced registry afterwards. Exploration level.",
+        design_ref="DESIGN.md 3/C09",
+        note="Trusted: registry event counters; only drop-glue layouts are used (the quantifier says so), so a bitwise copy shows as a registry imbalance / double destroy.",
+        technique="event-count monitor (Clone/Drop) around lazy-clone lifecycle",
+    ),
+    "C10": dict(
+        text="reserve/reserve_exact/shrink_to_fit/shrink_to, erased and typed, with arguments 0..=len+5 and at the usize::MAX boundary from every (len, capacity) state on Heap and the instrumented backend, plus capacity "
+             "calls inside random histories: postconditions on capacity(), storage base pointer, backend/allocator event counters and Drop/Clone counters checked at run time; len <= capacity after every step of every family. Exploration level.",
+        design_ref="DESIGN.md 3/C10",
+        note="Arguments whose byte size is valid but enormous are not probed (honest allocation failure aborts). Amortisation is checked with a loose logarithmic bound on reallocation counts.",
+        technique="postcondition monitors on capacity/base pointer + backend and allocator event counters",
+    ),
+    "C14": dict(
+        text="Every iterator kind driven by all next/next_back choice strings up to the bound plus six alternating calls after exhaustion; len() and size_hint() read before every step; clones of shared iterators taken mid-way and drained "
+             "after the original advanced. Compared against the model's cursor pair. Exploration level (exhaustive in the choice strings for n <= 7).",
+        design_ref="DESIGN.md 3/C14",
+        note="Trusted: the model. Harness loops are bounded by n + 6, never while-let on a library iterator.",
+        technique="trace monitor over iterator events (len/size_hint/yield) vs cursor-pair model",
+    ),
 }
